@@ -73,6 +73,11 @@ def rule_a(ck, u, eng, paths):
             goal_used = idx + 1 - L(used)
             goal_size = idx + 1 - L(size)
             ok = eng.entails(facts, goal_used) or eng.entails(facts, goal_size)
+            if ok and not eng.entails(facts, L(off) - idx):
+                ck.violation('C14.a', 'varint_decode:load:%s:start' % p.end, e.where(),
+                             'read of data[%s] is not proved to lie at or behind the read position data[offset]: octets in front of the unread region '
+                             '(or in front of the buffer) are read' % idx)
+                continue
             ck.verdict(ok, 'C14.a', 'varint_decode:load:%s' % p.end, e.where(),
                        'read of data[%s] proved inside the buffer on %s' % (idx, p.describe()) if ok else
                        'read of data[%s] is bounded only by {%s}: cannot entail %s <= 0 (a varint cut off by the end of the buffer is over-read)'
